@@ -318,6 +318,59 @@ func isIdentByte(b byte) bool {
 	return b == '_' || b == '.' && false || (b >= '0' && b <= '9') || (b >= 'a' && b <= 'z') || (b >= 'A' && b <= 'Z')
 }
 
+// monotone: the plain variables that the loop body and post statement change only by ++ (+1) or only by --
+// (-1); a variable whose address is taken, that is assigned, or that a closure may change is not among them.
+func (w *idxWalker) monotone(nodes ...ast.Node) map[string]int {
+	dir := map[string]int{}
+	bad := map[string]bool{}
+	for _, n := range nodes {
+		if n == nil {
+			continue
+		}
+		ast.Inspect(n, func(x ast.Node) bool {
+			switch y := x.(type) {
+			case *ast.IncDecStmt:
+				if id, ok := unparenE(y.X).(*ast.Ident); ok {
+					d := 1
+					if y.Tok == token.DEC {
+						d = -1
+					}
+					if old, seen := dir[id.Name]; seen && old != d {
+						bad[id.Name] = true
+					}
+					dir[id.Name] = d
+				} else {
+					bad[w.pr.Term(y.X)] = true
+				}
+			case *ast.AssignStmt:
+				for _, l := range y.Lhs {
+					bad[w.pr.Term(l)] = true
+				}
+			case *ast.RangeStmt:
+				if y.Key != nil {
+					bad[w.pr.Term(y.Key)] = true
+				}
+				if y.Value != nil {
+					bad[w.pr.Term(y.Value)] = true
+				}
+			case *ast.UnaryExpr:
+				if y.Op == token.AND {
+					bad[w.pr.Term(y.X)] = true
+				}
+			case *ast.FuncLit:
+				for _, t := range w.assigned(y.Body) {
+					bad[t] = true
+				}
+			}
+			return true
+		})
+	}
+	for t := range bad {
+		delete(dir, t)
+	}
+	return dir
+}
+
 // assigned collects the terms a statement list may assign (for loops and joins).
 func (w *idxWalker) assigned(n ast.Node) []string {
 	var out []string
@@ -690,6 +743,105 @@ func (w *idxWalker) stmt(st ast.Stmt, facts []scandfa.Fact) []scandfa.Fact {
 		}
 		mod := append(w.assigned(x.Body), w.assigned(x.Post)...)
 		in := w.killAll(cloneFacts(facts), mod)
+		// a bound that the loop can only make more true stays: a variable the loop changes by ++ alone keeps
+		// its lower bounds (first := 0; for … { first++ }: first >= 0), one changed by -- alone its upper bounds
+		loopNodes := []ast.Node{x.Body}
+		if x.Post != nil {
+			loopNodes = append(loopNodes, x.Post)
+		}
+		if dir := w.monotone(loopNodes...); len(dir) > 0 {
+			for _, f := range facts {
+				keep, touched := true, false
+				for term, c := range f.E.T {
+					modified := false
+					for _, m := range mod {
+						if termMentions(term, m) || (strings.HasSuffix(m, ".") && strings.Contains(term, m)) {
+							modified = true
+						}
+					}
+					if !modified {
+						continue
+					}
+					touched = true
+					if d, ok := dir[term]; !ok || (d > 0) != (c > 0) {
+						keep = false
+					}
+				}
+				if keep && touched && !f.Ne {
+					in = append(in, f)
+				}
+			}
+		}
+		// for t < U && … { …; t++ } with t changed by that one ++ alone and U unchanged: t <= U throughout and
+		// after the loop, when it holds on entry (each round starts with t < U and ends with t one larger)
+		if x.Cond != nil {
+			dir := w.monotone(loopNodes...)
+			incs := map[string]int{}
+			nested := map[string]bool{}
+			var count func(n ast.Node, depth int)
+			count = func(n ast.Node, depth int) {
+				ast.Inspect(n, func(y ast.Node) bool {
+					switch z := y.(type) {
+					case *ast.IncDecStmt:
+						if id, ok := unparenE(z.X).(*ast.Ident); ok {
+							incs[id.Name]++
+							if depth > 0 {
+								nested[id.Name] = true
+							}
+						}
+					case *ast.ForStmt:
+						if ast.Node(z) != n {
+							count(z.Body, depth+1)
+							if z.Post != nil {
+								count(z.Post, depth+1)
+							}
+							return false
+						}
+					case *ast.RangeStmt:
+						count(z.Body, depth+1)
+						return false
+					}
+					return true
+				})
+			}
+			for _, ln := range loopNodes {
+				count(ln, 0)
+			}
+			for _, cf := range w.factsOf(x.Cond, true) {
+				if cf.Ne {
+					continue
+				}
+				for t, c := range cf.E.T {
+					if c != -1 || dir[t] != 1 || incs[t] != 1 || nested[t] {
+						continue
+					}
+					others := true
+					for term := range cf.E.T {
+						if term == t {
+							continue
+						}
+						for _, m := range mod {
+							if termMentions(term, m) || (strings.HasSuffix(m, ".") && strings.Contains(term, m)) {
+								others = false
+							}
+						}
+					}
+					if !others {
+						continue
+					}
+					inv := cf.E.Plus(scandfa.Const(1)) // U - t >= 0
+					entry := cloneFacts(facts)
+					for term := range inv.T {
+						if strings.HasPrefix(term, "len(") || strings.HasPrefix(term, "cap(") {
+							entry = append(entry, scandfa.Fact{E: scandfa.TermExpr(term)})
+						}
+					}
+					if scandfa.Entails(inv, entry) {
+						in = append(in, scandfa.Fact{E: inv})
+					}
+				}
+			}
+		}
 		// i := a; …; i++ with i changed only by the post statement: i >= a throughout
 		if as, ok := x.Init.(*ast.AssignStmt); ok && len(as.Lhs) == 1 && len(as.Rhs) == 1 {
 			if pd, ok := x.Post.(*ast.IncDecStmt); ok {
@@ -921,6 +1073,23 @@ func (w *idxWalker) define(l, r ast.Expr, facts []scandfa.Fact) []scandfa.Fact {
 				}
 				if nonNeg {
 					facts = append(facts, scandfa.Fact{E: scandfa.TermExpr(t)})
+				}
+			}
+			// i := sort.SearchStrings(xs, x) / SearchInts / SearchFloat64s: 0 <= i <= len(xs); sort.Search(n, f): 0 <= i <= n
+			if call, ok := r.(*ast.CallExpr); ok && len(call.Args) == 2 {
+				if fn, ok := typeutil.Callee(w.info, call).(*types.Func); ok && fn.Pkg() != nil && fn.Pkg().Path() == "sort" {
+					var hi scandfa.LExpr
+					okHi := false
+					switch fn.Name() {
+					case "SearchStrings", "SearchInts", "SearchFloat64s":
+						hi, okHi = w.lenOf(call.Args[0]), true
+					case "Search":
+						hi, okHi = w.pr.Lin(call.Args[0])
+					}
+					if okHi && !hi.Mentions(t) {
+						facts = append(facts, scandfa.Fact{E: scandfa.TermExpr(t)})
+						facts = append(facts, scandfa.Fact{E: hi.Minus(scandfa.TermExpr(t))})
+					}
 				}
 			}
 			// i := strings.IndexByte(s, c) (Index, LastIndex, IndexRune, IndexAny; package bytes alike):
